@@ -777,6 +777,7 @@ func runC12(c *Ctx) {
 		pkts := []packet{genPacket(r, gs), genPacket(r, gs)}
 		h.ruleSetCase(gs, pkts, "malformed-stream")
 	}
+	h.historyCases()
 	h.shutdownNodes()
 	h.chainCases()
 	h.configCases()
